@@ -1,5 +1,6 @@
 import BoltonsVerif.Generated.Src_iterutils_backoff
 import BoltonsVerif.C15.Session
+import BoltonsVerif.C15.Props
 /-
 C15 — source-translator tie for `boltons.iterutils.backoff_iter` (round 3d).
 
@@ -400,7 +401,296 @@ theorem src_backoff_iter_eq_model (fuel n : Nat) (r : Nat → α) (p : Params α
             PyRtC15.float, hl, hk, valsFrom_take, valsFrom_len, e2]
           tie_split
 
+/-! ## 5. `backoff`: `list(backoff_iter(...))` -/
+
+/-- what `backoff` returns as the runtime reports it: `list` asks `fuel` times, so it has seen the end of the
+    generator iff fewer than `fuel` values came (else `OutOfFuel`, like a default-count loop that needs more fuel) -/
+def listed (fuel : Nat) : Outcome α → Except PyExc (List α)
+  | .valueError => .error .ValueError
+  | .fuelOut => .error .OutOfFuel
+  | .finite vals => if vals.length < fuel then .ok vals else .error .OutOfFuel
+  | .endless _ => .error .OutOfFuel
+
+omit [LE α] [LT α] [DecidableLE α] [DecidableLT α] [BEq α] [Mul α] [Sub α] [Neg α] [OfNat α 0] [OfNat α 1] in
+/-- `list(g)` of a generator that shows what the model's outcome shows -/
+theorem runFn_listOf_view (f : Nat) (o : Outcome α) (g : Nat → List α × Stop) (hg : g (f + 1) = view (f + 1) o) :
+    runFn (α := α) (G.ofExcept (listOf (f + 1) g)) = listed (f + 1) o := by
+  cases o with
+  | valueError => simp [listOf, hg, runFn, listed]
+  | fuelOut => simp [listOf, hg, runFn, listed]
+  | endless val => simp [listOf, hg, runFn, listed]
+  | finite vals =>
+    by_cases hl : vals.length < f + 1
+    · simp [listOf, hg, runFn, listed, hl, List.take_of_length_le (Nat.le_of_lt hl)]
+    · simp [listOf, hg, runFn, listed, hl]
+
+theorem src_backoff_eq_model (fuel : Nat) (r : Nat → α) (p : Params α) (hf : 0 < fuel) :
+    Src.iterutils.backoff fuel r p.start p.stop (countArg p.count) p.factor p.jitter
+      = listed fuel (C15.backoff fuel r p) := by
+  have hi := src_backoff_iter_eq_model fuel fuel r p (Nat.le_refl _)
+  obtain ⟨f, rfl⟩ : ∃ f, fuel = f + 1 := ⟨fuel - 1, by omega⟩
+  change _ = view (f + 1) (backoffIter (f + 1) r p) at hi
+  obtain ⟨start, stop, factor, count, jitter⟩ := p
+  cases count with
+  | rep => simp [Src.iterutils.backoff, runFn, countArg, C15.backoff, listed]
+  | dflt =>
+    simp only [countArg] at hi
+    simp [Src.iterutils.backoff, countArg, C15.backoff]
+    exact runFn_listOf_view f _ (fun n => backoff_iter (f + 1) n r start stop CountV.none factor jitter) hi
+  | num k =>
+    simp only [countArg] at hi
+    simp [Src.iterutils.backoff, countArg, C15.backoff]
+    exact runFn_listOf_view f _ (fun n => backoff_iter (f + 1) n r start stop (CountV.int k) factor jitter) hi
+
+/-- with enough fuel `backoff` is the model's list, or its ValueError -/
+theorem src_backoff_finite (fuel : Nat) (r : Nat → α) (p : Params α) (vals : List α)
+    (h : C15.backoff fuel r p = .finite vals) (hl : vals.length < fuel) :
+    Src.iterutils.backoff fuel r p.start p.stop (countArg p.count) p.factor p.jitter = .ok vals := by
+  rw [src_backoff_eq_model fuel r p (by omega), h]; simp [listed, hl]
+
+theorem src_backoff_valueError (fuel : Nat) (r : Nat → α) (p : Params α) (hf : 0 < fuel)
+    (h : C15.backoff fuel r p = .valueError) :
+    Src.iterutils.backoff fuel r p.start p.stop (countArg p.count) p.factor p.jitter = .error .ValueError := by
+  rw [src_backoff_eq_model fuel r p hf, h]; rfl
+
 end
+
+/-! ## 6. the property theorems, about what the SOURCE computes
+
+Corollaries of the two ties and of Props.lean, stated about `Src.iterutils.backoff_iter` / `backoff` (the definitions
+regenerated from the Python text): order layer (any carrier obeying the laws finite doubles obey), then `Rat`. -/
+
+section SrcProps
+variable {α : Type} [LE α] [LT α] [DecidableLE α] [DecidableLT α] [BEq α] [LawfulBEq α]
+  [Std.IsLinearOrder α] [Std.LawfulOrderLT α]
+  [Mul α] [Sub α] [Neg α] [OfNat α 0] [OfNat α 1]
+
+/-- `range m` mapped is what `valsFrom` yields from position 0 -/
+theorem valsFrom_yieldAt (p : Params α) (r : Nat → α) (m : Nat) :
+    valsFrom p.factor p.stop p.jitter r m 0 p.start = (List.range m).map (yieldAt r p) := by
+  rw [valsFrom_map]; simp [yieldAt]
+
+/-- EXACTLY `count` VALUES: an explicit `count = k ≥ 0` with valid parameters: `n` calls of `next()` on the SOURCE's
+    generator show the first `min n k` delays `yieldAt r p i` and the generator is exhausted exactly after `k` -/
+theorem src_iter_exactly_count (fuel n : Nat) (r : Nat → α) (start stop factor jitter : α) (k : Int)
+    (hp : ValidParams ⟨start, stop, factor, .num k, jitter⟩) (hj : JitterOk ⟨start, stop, factor, .num k, jitter⟩)
+    (hk : 0 ≤ k) (hn : n ≤ fuel) :
+    backoff_iter fuel n r start stop (.int k) factor jitter =
+      ((List.range (min k.toNat n)).map (yieldAt r ⟨start, stop, factor, .num k, jitter⟩),
+       if k.toNat < n then .returned else .suspended) := by
+  have h := src_backoff_iter_eq_model fuel n r ⟨start, stop, factor, .num k, jitter⟩ hn
+  have hk' : ¬ k < 0 := by omega
+  have hb : backoffIter fuel r ⟨start, stop, factor, .num k, jitter⟩
+      = .finite (valsFrom factor stop jitter r k.toNat 0 start) := by
+    simp [backoffIter, rangeBad_false hp, resolveCount, hk', jitterBad_false hj]
+  simp only [countArg] at h
+  rw [h, hb]
+  show view n _ = _
+  rw [view_finite, valsFrom_take, valsFrom_len]
+  exact congrArg (·, _) (valsFrom_yieldAt ⟨start, stop, factor, .num k, jitter⟩ r _)
+
+/-- 'repeat': the generator never ends; `n` calls show the delays at positions `0 … n-1` -/
+theorem src_iter_repeat_endless (fuel n : Nat) (r : Nat → α) (start stop factor jitter : α)
+    (hp : ValidParams ⟨start, stop, factor, .rep, jitter⟩) (hj : JitterOk ⟨start, stop, factor, .rep, jitter⟩)
+    (hn : n ≤ fuel) :
+    backoff_iter fuel n r start stop (.str "repeat") factor jitter =
+      ((List.range n).map (yieldAt r ⟨start, stop, factor, .rep, jitter⟩), .suspended) := by
+  have h := src_backoff_iter_eq_model fuel n r ⟨start, stop, factor, .rep, jitter⟩ hn
+  simp only [countArg] at h
+  rw [h, repeat_is_infinite hp hj rfl]
+  show view n _ = _
+  rw [view_endless]
+
+omit [LawfulBEq α] [Std.IsLinearOrder α] [Std.LawfulOrderLT α] in
+/-- whatever the parameters: what the generator yields are delays `yieldAt r p i` at positions `0, 1, …` -/
+theorem src_iter_values (fuel n : Nat) (r : Nat → α) (p : Params α) (hn : n ≤ fuel) :
+    ∃ m, m ≤ n ∧ (backoff_iter fuel n r p.start p.stop (countArg p.count) p.factor p.jitter).1
+      = (List.range m).map (yieldAt r p) := by
+  rw [src_backoff_iter_eq_model fuel n r p hn]
+  show ∃ m, m ≤ n ∧ (view n (backoffIter fuel r p)).1 = _
+  have hshape : ∀ vals, backoffIter fuel r p = .finite vals →
+      ∃ m, vals = valsFrom p.factor p.stop p.jitter r m 0 p.start := by
+    intro vals
+    unfold backoffIter
+    split
+    · intro h; cases h
+    · split <;> (try split) <;> intro h <;> first | (cases h; exact ⟨_, rfl⟩) | cases h
+  have hend : ∀ val, backoffIter fuel r p = .endless val → val = yieldAt r p := by
+    intro val
+    unfold backoffIter
+    split
+    · intro h; cases h
+    · split <;> (try split) <;> intro h <;> first | (cases h; rfl) | cases h
+  cases hb : backoffIter fuel r p with
+  | valueError => exact ⟨0, Nat.zero_le _, by cases n <;> rfl⟩
+  | fuelOut => exact ⟨0, Nat.zero_le _, by cases n <;> rfl⟩
+  | finite vals =>
+    obtain ⟨m, rfl⟩ := hshape vals hb
+    refine ⟨min m n, Nat.min_le_right _ _, ?_⟩
+    rw [view_finite, valsFrom_take, valsFrom_map]; simp [yieldAt]
+  | endless val =>
+    rw [hend val hb, view_endless]
+    exact ⟨n, Nat.le_refl _, rfl⟩
+
+/-- jitter off: the value the SOURCE's generator yields at position `i` is the un-jittered delay `seqAt … i` -/
+theorem src_iter_nojitter_get (fuel n : Nat) (r : Nat → α) (start stop factor : α) (c : Count) (hn : n ≤ fuel)
+    (i : Nat) (a : α) (h : (backoff_iter fuel n r start stop (countArg c) factor (0 : α)).1[i]? = some a) :
+    a = seqAt factor stop start i := by
+  obtain ⟨m, _, hm⟩ := src_iter_values fuel n r ⟨start, stop, factor, c, (0 : α)⟩ hn
+  simp only at hm
+  rw [hm, List.getElem?_map] at h
+  by_cases hi : i < m
+  · simp [List.getElem?_range hi, yieldAt, emit_off] at h; exact h.symm
+  · simp [List.getElem?_eq_none (by simp; omega : (List.range m).length ≤ i)] at h
+
+/-- FIRST VALUE, MONOTONE, CAPPED (jitter off, `0 ≤ start ≤ stop`, `0 < stop`, `factor ≥ 1`): of the values the SOURCE's
+    generator yields the first is `start`, none is negative or above `stop`, and they never decrease -/
+theorem src_iter_first_monotone_capped (fuel n : Nat) (r : Nat → α) (start stop factor : α) (c : Count)
+    (hv : Valid factor stop start) (hn : n ≤ fuel) :
+    let vals : List α := (backoff_iter fuel n r start stop (countArg c) factor (0 : α)).1
+    (∀ a : α, vals[0]? = some a → a = start) ∧
+    (∀ (i j : Nat) (a b : α), i ≤ j → vals[i]? = some a → vals[j]? = some b → 0 ≤ a ∧ a ≤ b ∧ b ≤ stop) := by
+  intro vals
+  have hget := src_iter_nojitter_get fuel n r start stop factor c hn
+  refine ⟨fun a h => hget 0 a h, ?_⟩
+  intro i j a b hij ha hb
+  rw [hget i a ha, hget j b hb]
+  exact ⟨(le_stop hv i).1, monotone hv hij, (le_stop hv j).2⟩
+
+/-- GROWTH: a non-zero value is followed by itself times `factor`, or by `stop` if that would pass `stop`; a zero start
+    is followed by `min(1, stop)`; once at `stop` the values stay there -/
+theorem src_iter_grows_by_factor (fuel n : Nat) (r : Nat → α) (start stop factor : α) (c : Count)
+    (hv : Valid factor stop start) (hn : n ≤ fuel) :
+    let vals : List α := (backoff_iter fuel n r start stop (countArg c) factor (0 : α)).1
+    (∀ (i : Nat) (a b : α), vals[i]? = some a → vals[i + 1]? = some b → a ≠ 0 →
+        b = if stop < a * factor then stop else a * factor) ∧
+    (∀ b : α, start = 0 → vals[1]? = some b → b = if stop < 1 then stop else 1) ∧
+    (∀ (i j : Nat) (a b : α), i ≤ j → vals[i]? = some a → vals[j]? = some b → a = stop → b = stop) := by
+  intro vals
+  have hget := src_iter_nojitter_get fuel n r start stop factor c hn
+  refine ⟨?_, ?_, ?_⟩
+  · intro i a b ha hb hne
+    rw [hget i a ha] at hne ⊢
+    rw [hget (i + 1) b hb]
+    exact grows_by_factor_until_cap hv i hne
+  · intro b h0 hb
+    rw [hget 1 b hb, h0]
+    exact zero_then_min_one_stop factor stop
+  · intro i j a b hij ha hb hs
+    rw [hget i a ha] at hs
+    rw [hget j b hb]
+    exact stays_at_stop hv hs hij
+
+/-- DEFAULT COUNT: when the SOURCE's generator, called with `count=None` and jitter off, is seen to its end, the last
+    value is `stop` (and there is at least one value) -/
+theorem src_iter_default_last_is_stop (fuel n : Nat) (r : Nat → α) (start stop factor : α) (vals : List α)
+    (hp : ValidParams ⟨start, stop, factor, .dflt, (0 : α)⟩) (hn : n ≤ fuel)
+    (h : backoff_iter fuel n r start stop .none factor (0 : α) = (vals, .returned)) :
+    vals.getLast? = some stop := by
+  have hm := src_backoff_iter_eq_model fuel n r ⟨start, stop, factor, .dflt, (0 : α)⟩ hn
+  simp only [countArg] at hm
+  rw [hm] at h
+  change view n _ = _ at h
+  rcases default_count_outcome hp (Or.inl rfl) rfl fuel r with hb | hb | ⟨m, _, hb, _, hlast⟩
+  · rw [hb] at h; cases n <;> simp [view, shown, pullObj, Obj.ofOutcome] at h
+  · rw [hb] at h; cases n <;> simp [view, shown, pullObj, Obj.ofOutcome] at h
+  · rw [hb, view_finite] at h
+    have h1 := congrArg Prod.fst h
+    have h2 := congrArg Prod.snd h
+    simp only at h1 h2
+    split at h2
+    · rename_i hl
+      rw [List.take_of_length_le (Nat.le_of_lt hl)] at h1
+      rw [← h1]; exact hlast rfl
+    · cases h2
+
+/-- INVALID PARAMETERS raise ValueError at the first `next()`, nothing having been yielded -/
+theorem src_iter_invalid_raises (fuel n : Nat) (r : Nat → α) (p : Params α) (hn : n + 1 ≤ fuel)
+    (h : p.start < 0 ∨ p.factor < 1 ∨ p.stop = 0 ∨ p.stop < p.start ∨ (∃ k, p.count = .num k ∧ k < 0)) :
+    backoff_iter fuel (n + 1) r p.start p.stop (countArg p.count) p.factor p.jitter = ([], .raised .ValueError) := by
+  rw [src_backoff_iter_eq_model fuel (n + 1) r p hn, invalid_raises p fuel r h]; rfl
+
+/-- … and `backoff` raises ValueError for them -/
+theorem src_backoff_invalid_raises (fuel : Nat) (r : Nat → α) (p : Params α) (hf : 0 < fuel)
+    (h : p.start < 0 ∨ p.factor < 1 ∨ p.stop = 0 ∨ p.stop < p.start ∨ (∃ k, p.count = .num k ∧ k < 0)) :
+    Src.iterutils.backoff fuel r p.start p.stop (countArg p.count) p.factor p.jitter = .error .ValueError := by
+  apply src_backoff_valueError fuel r p hf
+  unfold C15.backoff
+  split
+  · rfl
+  · exact invalid_raises p fuel r h
+
+omit [LawfulBEq α] [Std.IsLinearOrder α] [Std.LawfulOrderLT α] in
+/-- `backoff` refuses `count='repeat'` whatever the other arguments are -/
+theorem src_backoff_repeat_rejected (fuel : Nat) (r : Nat → α) (start stop factor jitter : α) (hf : 0 < fuel) :
+    Src.iterutils.backoff fuel r start stop (.str "repeat") factor jitter = .error .ValueError :=
+  src_backoff_valueError fuel r ⟨start, stop, factor, .rep, jitter⟩ hf rfl
+
+/-- `backoff` with an explicit `count = k ≥ 0` returns exactly `k` values: the delays at positions `0 … k-1` -/
+theorem src_backoff_exactly_count (fuel : Nat) (r : Nat → α) (start stop factor jitter : α) (k : Int)
+    (hp : ValidParams ⟨start, stop, factor, .num k, jitter⟩) (hj : JitterOk ⟨start, stop, factor, .num k, jitter⟩)
+    (hk : 0 ≤ k) (hf : k.toNat < fuel) :
+    Src.iterutils.backoff fuel r start stop (.int k) factor jitter
+      = .ok ((List.range k.toNat).map (yieldAt r ⟨start, stop, factor, .num k, jitter⟩)) := by
+  have hk' : ¬ k < 0 := by omega
+  have hb : C15.backoff fuel r ⟨start, stop, factor, .num k, jitter⟩
+      = .finite (valsFrom factor stop jitter r k.toNat 0 start) := by
+    simp [C15.backoff, backoffIter, rangeBad_false hp, resolveCount, hk', jitterBad_false hj]
+  have := src_backoff_finite fuel r ⟨start, stop, factor, .num k, jitter⟩ _ hb (by rw [valsFrom_len]; exact hf)
+  simp only [countArg] at this
+  rw [this, ← valsFrom_yieldAt ⟨start, stop, factor, .num k, jitter⟩ r]
+
+/-- `backoff` with the default count and jitter off: whenever it returns a list, the last value is `stop` -/
+theorem src_backoff_default_last_is_stop (fuel : Nat) (r : Nat → α) (start stop factor : α) (vals : List α)
+    (hp : ValidParams ⟨start, stop, factor, .dflt, (0 : α)⟩) (hf : 0 < fuel)
+    (h : Src.iterutils.backoff fuel r start stop .none factor (0 : α) = .ok vals) :
+    vals.getLast? = some stop := by
+  have hm := src_backoff_eq_model fuel r ⟨start, stop, factor, .dflt, (0 : α)⟩ hf
+  simp only [countArg] at hm
+  rw [hm] at h
+  have he : C15.backoff fuel r ⟨start, stop, factor, .dflt, (0 : α)⟩
+      = backoffIter fuel r ⟨start, stop, factor, .dflt, (0 : α)⟩ := rfl
+  rw [he] at h
+  rcases default_count_outcome hp (Or.inl rfl) rfl fuel r with hb | hb | ⟨m, _, hb, _, hlast⟩
+  · rw [hb] at h; cases h
+  · rw [hb] at h; cases h
+  · rw [hb] at h
+    simp only [listed] at h
+    split at h
+    · cases h; exact hlast rfl
+    · cases h
+
+end SrcProps
+
+/-- JITTER BOUND (exact layer): with `j ∈ [-1, 1]`, draws in `[0, 1)` and an explicit count, every value the SOURCE's
+    generator yields lies between the value `b` the SAME generator yields at that position with jitter off and
+    `b * (1 - j)`, inclusive -/
+theorem src_iter_jitter_bounds (fuel n : Nat) (r : Nat → Rat) (start stop factor jitter : Rat) (k : Int)
+    (h0 : 0 ≤ start) (h1 : start ≤ stop) (hs : 0 < stop) (hf : 1 ≤ factor) (hk : 0 ≤ k) (hn : n ≤ fuel)
+    (hj1 : -1 ≤ jitter) (hj2 : jitter ≤ 1) (hr : ∀ i, 0 ≤ r i ∧ r i < 1) (i : Nat) (w : Rat)
+    (hw : (backoff_iter fuel n r start stop (.int k) factor jitter).1[i]? = some w) :
+    ∃ b, (backoff_iter fuel n r start stop (.int k) factor 0).1[i]? = some b ∧
+      (0 ≤ jitter → b * (1 - jitter) ≤ w ∧ w ≤ b) ∧ (jitter ≤ 0 → b ≤ w ∧ w ≤ b * (1 - jitter)) := by
+  have hpj := rat_validParams ⟨start, stop, factor, .num k, jitter⟩ h0 h1 hs hf
+  have hp0 := rat_validParams ⟨start, stop, factor, .num k, 0⟩ h0 h1 hs hf
+  rw [src_iter_exactly_count fuel n r start stop factor jitter k hpj (Or.inr ⟨hj1, hj2⟩) hk hn] at hw
+  rw [src_iter_exactly_count fuel n r start stop factor 0 k hp0 (Or.inl rfl) hk hn]
+  simp only [List.getElem?_map] at hw ⊢
+  by_cases hi : i < min k.toNat n
+  · simp only [List.getElem?_range hi, Option.map_some, Option.some.injEq] at hw ⊢
+    refine ⟨_, rfl, ?_⟩
+    subst hw
+    have hb := jitter_bounds ⟨start, stop, factor, .num k, jitter⟩ h0 h1 hs hf r hr i
+    simp only [yieldAt, emit_off] at hb ⊢
+    exact ⟨fun h => hb.1 h hj2, fun h => hb.2 hj1 h⟩
+  · simp [List.getElem?_eq_none (by simp; omega : (List.range (min k.toNat n)).length ≤ i)] at hw
+
+
+/-- non-vacuity of the corollaries' hypotheses: valid parameters exist at `Rat` (the generated definitions are evaluated on
+    the doc-test calls in the examples below, at `Int`) -/
+example : ValidParams (⟨1, 10, 2, .dflt, 0⟩ : Params Rat) ∧ JitterOk (⟨1, 10, 2, .num 3, 1⟩ : Params Rat) ∧
+    ((0 : Int) ≤ 3 ∧ (3 : Int).toNat < 10) :=
+  ⟨rat_validParams _ (by decide) (by decide) (by decide) (by decide), Or.inr ⟨by decide, by decide⟩, by decide⟩
 
 /-! non-vacuity: the hypothesis `n ≤ fuel` is satisfiable and both sides are the doc-test values at `α = Int`
     (`list(backoff_iter(1, 10))`, six calls of `next()`; three calls on `count='repeat'`; a refused call) -/
@@ -412,5 +702,10 @@ example : Src.iterutils.backoff_iter (α := Int) 10 3 (fun _ => 0) 0 5 (countArg
     Src.iterutils.backoff_iter (α := Int) 10 3 (fun _ => 0) 7 5 (countArg (.num 2)) 3 0 = ([], .raised .ValueError) ∧
     Src.iterutils.backoff_iter (α := Int) 10 3 (fun i => i) 4 9 (countArg (.num 2)) 2 1 = ([4, 0], .returned) := by
   decide
+
+example : Src.iterutils.backoff (α := Int) 10 (fun _ => 0) 1 10 (countArg .dflt) 2 0 = .ok [1, 2, 4, 8, 10] ∧
+    Src.iterutils.backoff (α := Int) 10 (fun _ => 0) 1 10 (countArg .rep) 2 0 = .error .ValueError ∧
+    Src.iterutils.backoff (α := Int) 10 (fun _ => 0) 7 5 (countArg (.num 2)) 2 0 = .error .ValueError :=
+  ⟨rfl, rfl, rfl⟩
 
 end C15
